@@ -154,7 +154,101 @@ def cases():
     return out
 
 
+# ---- histories: the gate must be a function of the *current* settings --------------------------------
+class HState(object):
+    pass
+
+
+class HistorySpec(object):
+    """One output (plain receiver) or two sections of one decorated output; settings are changed between
+    writes.  Every write carries a unique text: a gated-out text must never reach the stream, neither at
+    once nor later (e.g. when another section redraws), an admitted one must reach it at once."""
+    replay = True
+
+    def __init__(self, kind, ansi):
+        self.kind, self.ansi = kind, ansi
+
+    def init(self):
+        from clikit.api.io import Output
+        from clikit.io.output_stream import BufferedOutputStream
+        st = HState()
+        st.stream = BufferedOutputStream()
+        out = Output(st.stream, _formatter(self.ansi))
+        if self.kind == "output":
+            st.recv = [out]
+        else:
+            st.recv = [out.section(), out.section()]  # recv[0] is the older (upper) one
+        st.n = 0
+        st.hidden = []
+        st.seen = 0
+        return st
+
+    def ops(self, st, depth):
+        out = []
+        for i in range(len(st.recv)):
+            out += [("quiet", i, 0), ("quiet", i, 1), ("verb", i, 0), ("verb", i, 2), ("verb", i, 4)]
+            if self.kind == "output":
+                out += [("verb", i, 1)]
+                out += [("w", i, m, f) for m in ("write", "write_line_raw") for f in (None, 1, 2, 4)]
+            else:
+                out += [("w", i, "write_line", f) for f in (None, 2, 4)] + [("w", i, "overwrite", None), ("clear", i)]
+        return out
+
+    def key(self, st):
+        from mc.fingerprint import canon
+
+        def leaf(o):
+            if o is st.stream:
+                return "stream"
+            if type(o).__name__ in ("AnsiFormatter", "PlainFormatter", "Terminal"):
+                return type(o).__name__
+            return None
+        import re as _re
+        c = canon([vars(r) for r in st.recv], leaf)
+        return _re.sub(r"([mh])\d+", r"\1", repr(c))
+
+    def apply(self, st, op):
+        r = st.recv[op[1]]
+        before = st.stream.fetch()
+        text = None
+        admitted = None
+        try:
+            if op[0] == "quiet":
+                r.set_quiet(bool(op[2]))
+            elif op[0] == "verb":
+                r.set_verbosity(op[2])
+            elif op[0] == "clear":
+                r.clear()
+            else:
+                st.n += 1
+                admitted = (not r.is_quiet()) and r.verbosity >= lowest_level(op[3])
+                # admitted texts are named m<k>, gated-out ones h<k>: the fingerprint below erases the
+                # counter but keeps the letter, so a state holding a gated-out text is never merged
+                # with one holding an admitted text
+                text = ("m%d" if admitted else "h%d") % st.n
+                if op[2] == "overwrite":
+                    r.overwrite(text)
+                else:
+                    getattr(r, op[2])(text, flags=op[3])
+        except Exception as e:
+            return [report.viol("crash:" + report.exc_site(e), "%r raised %r" % (op, e), None)]
+        delta = st.stream.fetch()[len(before):]
+        if text is not None:
+            if admitted and text not in delta:
+                return [report.viol("history:lost:%s.%s" % (self.kind, op[2]), "%r was admitted by the current settings but %r did not reach the stream" % (op, text), None, True, delta)]
+            if not admitted:
+                st.hidden.append(text)
+        for h in st.hidden:
+            if h in delta:
+                return [report.viol("history:leak:%s.%s" % (self.kind, op[0] if op[0] != "w" else op[2]),
+                                    "text %r was gated out when written but reached the stream during %r" % (h, op), None, "", delta)]
+        return []
+
+
 def replay(case):
+    if isinstance(case, dict) and "history" in case:
+        from mc import explore
+        return explore.replay(HistorySpec(case["kind"], case["ansi"]), case)
     return run_case(case)
 
 
@@ -176,14 +270,31 @@ def main():
     # the set of (verbosity, loud) at which text is shown is upward closed -- follows from the gate
     # formula when every cell agrees with it, which is what was just checked.
     meths = sorted({(c[0], c[2]) for c in cs})
-    rep.set("evaluations", len(cs))
     rep.set("distinct_nontrivial", len([c for c in cs if c[4] not in (None, 0) or c[5]]))
     rep.set("entry_points", ["%s.%s" % m for m in meths])
     rep.set("exhaustive", True)
     rep.set("rule", "complete table: receiver kinds x methods found by reflection (write*/error*/overwrite/clear) x verbosity {0,1,2,4} "
-                    "x flags {None,0..7} x quiet x ANSI/plain (x pre-filled or empty for sections); non-trivial = a flag word that names a level or quiet on")
+                    "x flags {None,0..7} x quiet x ANSI/plain (x pre-filled or empty for sections); non-trivial = a flag word that names a level or quiet on. "
+                    "Plus explicit-state BFS over histories of set_quiet/set_verbosity/write on one output and on two sections of one decorated output "
+                    "(unique text per write; gated-out text must never reach the stream, admitted text must reach it at once)")
     for c in cs[:: max(1, len(cs) // 6)][:6]:
         rep.sample(c)
+    from mc import explore
+    hs = ht = 0
+    for kind, depth in (("output", 5 if rep.tier == "quick" else 7), ("sections", 5 if rep.tier == "quick" else 6)):
+        for ansi in ((True, False) if kind == "output" else (True,)):
+            r = explore.explore(HistorySpec(kind, ansi), depth, split_depth=2)
+            for v in r.violations:
+                v["case"]["kind"], v["case"]["ansi"] = kind, ansi
+            rep.merge(r.violations)
+            rep.part("history/%s/%s" % (kind, "ansi" if ansi else "plain"), depth=depth, **r.as_dict())
+            hs += r.states
+            ht += r.transitions
+            for smp in r.samples[:1]:
+                rep.sample({"history": smp, "kind": kind})
+    rep.set("history_states", hs)
+    rep.set("history_transitions", ht)
+    rep.set("evaluations", len(cs) + ht)
     rep.assume("a write 'reaches the stream' iff the BufferedOutputStream contents changed")
     rep.assume("sections do not inherit verbosity/quiet from their parent output: both are set on the receiver itself")
     return rep.finish()
